@@ -99,6 +99,10 @@ class Exec:
                 else:
                     w.write(repo, p, c)
                 self.ledger.edit(olds[p] or "", c or "", who)
+                if olds[p] and c:
+                    hr = w.raw_git(repo, "show", "HEAD:" + p)
+                    if hr.code == 0:
+                        self.ledger.ws_change_of_committed(olds[p], c, hr.out, who)
             if who != HUMAN:
                 w.tick(op.get("dt2", 7))
                 r = w.ckpt_ai(repo, paths, who, transcript=op.get("transcript"),
@@ -235,3 +239,33 @@ def working_log_digest(w, repo):
                 entry["initial"] = "MALFORMED"
         out[d] = entry
     return out
+
+
+def pending_attribution(w, repo):
+    """Semantic view of pending (uncommitted) attribution: per working-log base, per file, the AI
+    line attributions of the latest checkpoint entry for that file, plus INITIAL."""
+    d = working_log_digest(w, repo)
+    out = {}
+    for base, entry in d.items():
+        files = {}
+        for cp in entry.get("checkpoints", []):
+            if cp == "MALFORMED":
+                files["<malformed>"] = True
+                continue
+            for f, la in cp[2]:
+                files[f] = [x for x in la if x[2] != "human"]
+        e = {"files": {f: v for f, v in sorted(files.items()) if v}}
+        if entry.get("initial"):
+            e["initial"] = entry["initial"]
+        if e["files"] or e.get("initial"):
+            out[base] = e
+    return out
+
+
+def in_progress(w, repo):
+    gd = w.raw_git(repo, "rev-parse", "--absolute-git-dir").out.strip()
+    for name, kind in (("rebase-merge", "rebase"), ("rebase-apply", "rebase"), ("CHERRY_PICK_HEAD", "cherry-pick"),
+                       ("MERGE_HEAD", "merge"), ("REVERT_HEAD", "revert")):
+        if os.path.exists(os.path.join(gd, name)):
+            return kind
+    return None
